@@ -6,7 +6,9 @@
 
   A. `ieval_plain` (+ `ievalList_plain`, `ievalFields_plain`), `evaluate_plain`, `search_plain`:
      plain inputs (no nil slice, no foreign Go value; literals plain) give plain results.
-     `Json.decode_plain`: what `encoding/json` decodes — documents and the JSON literals of expressions — is plain.
+     `Json.decode_plain` (in Jmes/Proofs/ParserLits.lean): what `encoding/json` decodes — documents and the JSON
+     literals of expressions — is plain; `compile_plainLits`: hence every literal of a compiled expression is plain,
+     and `search_plain` holds for every expression.
   B. `marshal_total`: a plain value whose numbers are valid `json.Number`s or Go integers is serialised by
      `Json.encode` (never `fail`, never `unmodelled`).
   C. `ieval_root_free`, `pipe_feed_back`, `evaluate_pipe`: a root-free right-hand side of a pipe can be evaluated
@@ -14,6 +16,7 @@
      environment for a right-hand side without variables. Counterexamples for `$` and for an outer variable.
 -/
 import Jmes.Proofs.Invariants
+import Jmes.Proofs.ParserLits
 namespace Jmes.C18
 open Invar
 
@@ -51,9 +54,8 @@ theorem evaluate_plain {d : Val} {n : INode} (hd : d.Plain = true) (hn : n.Plain
     ∀ r, evaluate n d = .ok r → r.Plain = true :=
   ieval_plain hd n d [] hn hd rfl
 
-/-- **C18, first sentence**, for an expression whose compiled form carries plain literals only (the parser builds
-    literal nodes from `Json.decode` — see `Json.decode_plain` — and from raw strings). -/
-theorem search_plain {expr : Bytes} {d r : Val} (hlit : ∀ n, compile expr = .ok n → n.PlainLits = true)
+/-- the same through `search`, given that the compiled expression carries plain literals only -/
+theorem search_plain_of_lits {expr : Bytes} {d r : Val} (hlit : ∀ n, compile expr = .ok n → n.PlainLits = true)
     (hd : d.Plain = true) (h : search expr d = .ok r) : r.Plain = true := by
   unfold search at h
   unfold compile at hlit
@@ -62,97 +64,13 @@ theorem search_plain {expr : Bytes} {d r : Val} (hlit : ∀ n, compile expr = .o
   · cases h
   · next n hp => exact evaluate_plain hd (hlit n hp) r h
 
-/-! ### what `encoding/json` decodes is plain -/
+/-- the parser builds literal nodes from `Json.decode` (plain by `Json.decode_plain`) and from raw strings only -/
+theorem compile_plainLits {expr : Bytes} {n : INode} (h : compile expr = .ok n) : n.PlainLits = true :=
+  ParserLits.parse_plainLits h
 
-theorem goodL_snoc {s : Bool} {xs : List Val} {v : Val} (hx : Val.GoodL s xs = true) (hv : v.Good s = true) :
-    Val.GoodL s (xs ++ [v]) = true :=
-  goodL_append hx (goodL_cons.mpr ⟨hv, rfl⟩)
-
-theorem parse_plain : ∀ fuel : Nat,
-    (∀ depth s v r, Json.parseValue fuel depth s = some (v, r) → v.Good false = true) ∧
-    (∀ depth s acc xs r, Val.GoodL false acc = true → Json.parseElems fuel depth s acc = some (xs, r) →
-      Val.GoodL false xs = true) ∧
-    (∀ depth s acc kvs r, Val.GoodF false acc = true → Json.parseMembers fuel depth s acc = some (kvs, r) →
-      Val.GoodF false kvs = true)
-  | 0 => ⟨by simp [Json.parseValue], by simp [Json.parseElems], by simp [Json.parseMembers]⟩
-  | fuel + 1 => by
-    obtain ⟨ihV, ihE, ihM⟩ := parse_plain fuel
-    refine ⟨?_, ?_, ?_⟩
-    · intro depth s v r h
-      simp only [Json.parseValue] at h
-      split at h
-      · cases h
-      · cases h; rfl
-      · cases h; rfl
-      · cases h; rfl
-      · simp only [Option.map_eq_some_iff] at h
-        obtain ⟨⟨b, r'⟩, _, h⟩ := h
-        cases h; rfl
-      · split at h
-        · cases h
-        · split at h
-          · cases h; rfl
-          · simp only [Option.map_eq_some_iff] at h
-            obtain ⟨⟨xs, r'⟩, he, h⟩ := h
-            cases h
-            exact good_plainArr (ihE _ _ _ _ _ rfl he)
-      · split at h
-        · cases h
-        · split at h
-          · cases h; rfl
-          · simp only [Option.map_eq_some_iff] at h
-            obtain ⟨⟨kvs, r'⟩, he, h⟩ := h
-            cases h
-            exact good_obj.mpr (ihM _ _ _ _ _ rfl he)
-      · split at h
-        · simp only [Option.map_eq_some_iff] at h
-          obtain ⟨⟨n, r'⟩, _, h⟩ := h
-          cases h; rfl
-        · cases h
-    · intro depth s acc xs r ha h
-      simp only [Json.parseElems] at h
-      split at h
-      · cases h
-      · next v r' hv =>
-        split at h
-        · exact ihE _ _ _ _ _ (goodL_snoc ha (ihV _ _ _ _ hv)) h
-        · cases h
-          exact goodL_snoc ha (ihV _ _ _ _ hv)
-        · cases h
-    · intro depth s acc kvs r ha h
-      simp only [Json.parseMembers] at h
-      split at h
-      · split at h
-        · cases h
-        · split at h
-          · split at h
-            · cases h
-            · next v r2 hv =>
-              split at h
-              · exact ihM _ _ _ _ _ (goodF_objInsert (ihV _ _ _ _ hv) ha) h
-              · cases h
-                exact goodF_objInsert (ihV _ _ _ _ hv) ha
-              · cases h
-          · cases h
-      · cases h
-
-/-- every value decoded from JSON text is plain -/
-theorem Json.decode_plain {s : Bytes} {v : Val} (h : Json.decode s = some v) : v.Plain = true := by
-  simp only [Json.decode] at h
-  split at h
-  · next v' r hp =>
-    split at h
-    · cases h
-      exact (parse_plain _).1 _ _ _ _ hp
-    · cases h
-  · cases h
-
-/-- the literal between backticks is plain -/
-theorem parseJSONLiteral_plain {s : Bytes} {v : Val} (h : parseJSONLiteral s = some v) : v.Plain = true := by
-  simp only [parseJSONLiteral] at h
-  split at h
-  · cases h
-  · exact Json.decode_plain h
+/-- **C18, first sentence**: searching a plain document yields a plain result, for every expression. -/
+theorem search_plain {expr : Bytes} {d r : Val} (hd : d.Plain = true) (h : search expr d = .ok r) : r.Plain = true :=
+  search_plain_of_lits (fun _ hn => compile_plainLits hn) hd h
 
 /-! ## B: plain values with JSON numbers serialise -/
 
@@ -288,6 +206,14 @@ example : evaluate .objectValuesCurrent doc = .ok (.arr .enum [.obj [([0x62], .a
 example : Json.decode [0x5B, 0x31, 0x2C, 0x6E, 0x75, 0x6C, 0x6C, 0x5D] = some (.arr .plain [one, .null]) := rfl
 example : (Val.arr .plain [one, .null]).Plain = true :=
   Json.decode_plain (s := [0x5B, 0x31, 0x2C, 0x6E, 0x75, 0x6C, 0x6C, 0x5D]) rfl
+
+/-- `search` through the real parser: the expression `a`, and the literal expression `` `[1]` `` -/
+example : (match search [0x61] doc with | .ok (.obj [_]) => true | _ => false) = true := by decide +kernel
+example : ∀ r, search [0x61] doc = .ok r → r.Plain = true := fun _ h => search_plain (by decide) h
+example : (match compile [0x60, 0x5B, 0x31, 0x5D, 0x60] with
+    | .ok (.lit (.arr .plain [.num (.jnum [0x31])])) => true
+    | _ => false) = true := by decide +kernel
+example : ∀ n, compile [0x60, 0x5B, 0x31, 0x5D, 0x60] = .ok n → n.PlainLits = true := fun _ h => compile_plainLits h
 
 example : Val.Marshalable doc = true := by decide
 example : Val.Marshalable (.num (.jnum [0x2D])) = false := by decide
